@@ -386,9 +386,21 @@ func genCase(r *Rng, wild bool) (tcase, genInfo) {
 
 func gen(r *Rng, tier string, emit func(Sx)) {
 	r = NewRng(r.U64())
-	n := 300
+	n := 200
+	nTree, nRefund := 60, 80
 	if tier == "thorough" {
-		n = 8000
+		n, nTree, nRefund = 6000, 2500, 2500
+	}
+	// structured streams first: nested static contexts and refund-counter sequences
+	systematicTrees(r.Fork(), func(t tcase) { emit(t.sx()) })
+	systematicRefunds(r.Fork(), func(t tcase) { emit(t.sx()) })
+	for i := 0; i < nTree; i++ {
+		rr := r.Fork()
+		emit(buildTree(rr, randomTree(rr)).sx())
+	}
+	for i := 0; i < nRefund; i++ {
+		rr := r.Fork()
+		emit(buildRefund(rr, randomRefund(rr)).sx())
 	}
 	for i := 0; i < n; i++ {
 		t, _ := genCase(r.Fork(), i%6 == 5)
